@@ -190,4 +190,25 @@ theorem reauth_window_witness :
       (obsOf (run .repaired (init 1 0) [.accept 0, .hsAuth 0 1 true, .hsFin 0, .hsAuth 0 2 true]) 2) = false := by
   decide
 
+/-- **Recorded finding `evict-close-window`** (not repaired): `KickOldConnection` (and `CleanupStale`)
+close the evicted connection's stream after releasing the registry lock.  A handshake packet of
+that connection handled in between re-registers and re-indexes it; the stream is then closed
+under the fresh index entry: `lookup(1)` answers a connection whose transport the server closed.
+The theorems above treat a kick as one step; this history uses the two finer steps. -/
+theorem evict_close_window_witness :
+    holdsFine 1 1 0
+      [.op (.accept 0), .op (.hsAuth 0 1 true), .op (.hsFin 0), .kickLock 1 1, .op (.hsAuth 0 1 true), .op (.hsFin 0),
+       .kickIO 0]
+      (obsOf (runFine .repaired (init 1 0)
+        [.op (.accept 0), .op (.hsAuth 0 1 true), .op (.hsFin 0), .kickLock 1 1, .op (.hsAuth 0 1 true), .op (.hsFin 0),
+         .kickIO 0]) 1) = false := by
+  decide
+
+/-- the same finer steps with nothing in the window satisfy the predicate -/
+example :
+    holdsFine 1 1 0 [.op (.accept 0), .op (.hsAuth 0 1 true), .op (.hsFin 0), .kickLock 1 1, .kickIO 0]
+      (obsOf (runFine .repaired (init 1 0)
+        [.op (.accept 0), .op (.hsAuth 0 1 true), .op (.hsFin 0), .kickLock 1 1, .kickIO 0]) 1) = true := by
+  decide
+
 end Tunnox.C07
